@@ -626,6 +626,35 @@ fn run_world_inner(w: &World) -> Obs {
     obs
 }
 
+/// Run a batch of worlds that share their keys inside ONE party thread (sweeps).
+pub fn run_worlds(keys: Keys, worlds: &[World]) -> Vec<Obs> {
+    seams::reset_world();
+    let ws = worlds.to_vec();
+    let n = ws.len();
+    match run_party(keys, move || {
+        ws.iter()
+            .map(|w| {
+                crate::supervise::announce_world(|| serde_json::to_string(w).unwrap());
+                seams::reset_world();
+                guarded(|| run_world_inner(w)).unwrap_or_else(|m| {
+                    let mut o = Obs::default();
+                    o.findings.push(Finding { class: "harness_panicked".into(), signature: format!("harness_panicked@{}", panic_site(&m)), what: m });
+                    o
+                })
+            })
+            .collect::<Vec<_>>()
+    }) {
+        Ok(v) => v,
+        Err(m) => (0..n)
+            .map(|_| {
+                let mut o = Obs::default();
+                o.findings.push(Finding { class: "harness_panicked".into(), signature: format!("harness_panicked@{}", panic_site(&m)), what: m.clone() });
+                o
+            })
+            .collect(),
+    }
+}
+
 pub fn run_world(w: &World) -> Obs {
     crate::supervise::announce_world(|| serde_json::to_string(w).unwrap());
     seams::reset_world();
@@ -653,9 +682,9 @@ pub struct Tier {
 
 pub fn tier(t: &str) -> Tier {
     if t == "thorough" {
-        Tier { honest: 6000, sweep: 320, seeded: 200_000, bristol: 60_000 }
+        Tier { honest: 30_000, sweep: 400, seeded: 1_000_000, bristol: 300_000 }
     } else {
-        Tier { honest: 600, sweep: 32, seeded: 20_000, bristol: 6_000 }
+        Tier { honest: 1_500, sweep: 40, seeded: 40_000, bristol: 12_000 }
     }
 }
 
@@ -745,9 +774,8 @@ fn small_subject(p: &mut Prng) -> ProgSpec {
     ProgSpec { name: "small".into(), src: gen::small_program(p), consts: vec![] }
 }
 
-fn tiny_subject(p: &mut Prng) -> ProgSpec {
-    // very small circuits for the complete sweeps
-    let srcs = [
+fn fixed_tiny() -> Vec<&'static str> {
+    vec![
         "pub fn main(a: bool, b: bool) -> bool {\n    a ^ b\n}\n",
         "pub fn main(a: bool, b: bool) -> bool {\n    a & b\n}\n",
         "pub fn main(a: bool, b: bool, c: bool) -> (bool, bool) {\n    (a & b, !c)\n}\n",
@@ -762,8 +790,28 @@ fn tiny_subject(p: &mut Prng) -> ProgSpec {
         "pub fn main(a: (), b: bool) -> bool {\n    !b\n}\n",
         "pub fn main(a: ()) -> bool {\n    true\n}\n",
         "pub fn main(a: [u8; 0], b: ()) -> [u8; 0] {\n    a\n}\n",
-    ];
+    ]
+}
+
+fn tiny_subject(p: &mut Prng) -> ProgSpec {
+    // very small circuits for the complete sweeps
+    let srcs = fixed_tiny();
+    if p.chance(1, 2) {
+        return ProgSpec { name: "tiny-gen".into(), src: gen::tiny_program(p), consts: vec![] };
+    }
     ProgSpec { name: "tiny".into(), src: p.pick(&srcs).to_string(), consts: vec![] }
+}
+
+const N_FIXED_TINY: u64 = 13;
+
+/// Sweep subjects: the first 13 sweep cases take the hand-written tiny programs in order (so the
+/// quick tier always covers all of them), later ones are generated.
+fn sweep_subject(sub: u64, p: &mut Prng) -> ProgSpec {
+    if sub < N_FIXED_TINY {
+        let all = fixed_tiny();
+        return ProgSpec { name: "tiny".into(), src: all[(sub as usize) % all.len()].to_string(), consts: vec![] };
+    }
+    ProgSpec { name: "tiny-gen".into(), src: gen::tiny_program(p), consts: vec![] }
 }
 
 /// The honest message of a world (computed in a party), for sizing fault spaces.
@@ -822,11 +870,18 @@ fn run_sweep(base: &World, acc: &mut Acc) {
             continue;
         };
         *acc.counters.entry("sweep_messages".into()).or_insert(0) += 1;
+        let keys = b.keys;
+        let mut batch: Vec<World> = Vec::new();
         let mut go = |f: Vec<MsgFault>, acc: &mut Acc| {
             let mut w = b.clone();
             w.faults = f;
-            let o = run_world(&w);
-            absorb(&o, &w, acc);
+            batch.push(w);
+            if batch.len() >= 512 {
+                let ws = std::mem::take(&mut batch);
+                for (o, w) in run_worlds(keys, &ws).iter().zip(ws.iter()) {
+                    absorb(o, w, acc);
+                }
+            }
         };
         // the fault-free channel first: compiler / converter output must be accepted
         go(vec![], acc);
@@ -936,6 +991,12 @@ fn run_sweep(base: &World, acc: &mut Acc) {
             go(vec![MsgFault::ByteDup { off }], acc);
             go(vec![MsgFault::ByteDel { off }], acc);
         }
+        // flush the last partial batch
+        let _ = &mut go;
+        let ws = std::mem::take(&mut batch);
+        for (o, w) in run_worlds(keys, &ws).iter().zip(ws.iter()) {
+            absorb(o, w, acc);
+        }
     }
 }
 
@@ -967,7 +1028,9 @@ pub fn make_world(plan: &CasePlan, seed: u64, idx: u64) -> (World, &'static str,
             w.channel = *p.pick(&[Channel::JsonSsa, Channel::JsonReg, Channel::JsonTypeSsa, Channel::JsonTypeReg]);
         }
         "sweep" => {
-            w.program = Some(tiny_subject(&mut p));
+            let (_, sub) = plan.family(idx);
+            w.program = Some(sweep_subject(sub, &mut p));
+            w.dedup = sub % 2 == 0 || sub >= N_FIXED_TINY && w.dedup;
         }
         "seeded" => {
             w.program = Some(if p.chance(1, 2) { tiny_subject(&mut p) } else { small_subject(&mut p) });
